@@ -25,11 +25,11 @@ def run(chk, replay=None):
     hx = build_hx('hx_roundtrip', lib)
     leandir, ok, out, changed = standard_lean(chk, 'C02')
     chk.assumptions += [
-        'the Lean part covers attribute text only: the escaping applied to import URLs, the decoding of the predefined entities by an XML parser (libxml2, modelled) and well-formedness of a double-quoted attribute value; '
+        'the Lean part covers attribute text (the escaping applied to import URLs, the decoding of the predefined entities by an XML parser - libxml2, modelled - and well-formedness of a double-quoted attribute value) and the attributes of <unit> and <variable> that are left out when they have their default value (numbers abstract: whether a double survives its rendering is a hypothesis, see known finding C02-fifteen-digits); '
         'the structural round trip of every element and attribute is checked on the implementation (generated documents parsed, printed, parsed, printed), not modelled',
         'content is compared through a canonical dump in which child order and whitespace between MathML tags are insignificant',
         'libxml2 parsing and pretty-printing are trusted to preserve well-formed content']
-    chk.cov['trusted_base'] += ['harness/hx_roundtrip.cpp + lean/Cellml/Engine/Xml.lean', 'pygen/docs.py (document generator)', 'python xml.dom.minidom as well-formedness judge']
+    chk.cov['trusted_base'] += ['harness/hx_roundtrip.cpp + lean/Cellml/Engine/Xml.lean', 'harness/hx_attrs.cpp + lean/Cellml/Engine/Attrs.lean', 'pygen/docs.py (document generator)', 'python xml.dom.minidom as well-formedness judge']
     if not ok:
         chk.violation('Lean obligations of C02 no longer check: ' + out[-1500:], {'kind': 'proof', 'theorem_or_build_log': out[-3000:]}, False)
     drv = drv_path(leandir)
@@ -53,6 +53,36 @@ def run(chk, replay=None):
             oracle.append(('a model importing from the URL %r does not survive print + parse (%s)' % (s, i), None, s))
     # 2. structural round trip on the implementation
     n = 150 if chk.tier == 'quick' else 1500
+    # 1b. correspondence: attributes left out when default (unit, variable) through parser, object model and printer
+    hxa = build_hx('hx_attrs', lib)
+    Hh = lambda t: '#' + t.encode().hex()
+    upool = {'units': ['second', 'metre', 'u2', ''], 'prefix': ['', '0', '-0', '00', '3', '-3', '03', 'milli', 'kilo', '99999999999', 'abc', ' 1', '1.5'],
+             'exponent': ['1', '2', '-1', '0', '01', '10', '0.5', '2.5', 'x', '', '1e', '1e2x'], 'multiplier': ['1', '2', '-1', '0', '01', '1000', '0.5', 'x', ''],
+             'id': ['', 'i1', 'b4da55'], 'foo': ['bar']}
+    vpool = {'name': ['', 'v', 'x1'], 'units': ['', 'second', 'uu'], 'initial_value': ['', '1', 'w', '1.5', '-'], 'interface': ['', 'none', 'public', 'private', 'public_and_private', 'bogus'],
+             'id': ['', 'i1'], 'foo': ['bar']}
+    alines = []
+    for _ in range(400 if chk.tier == 'quick' else 4000):
+        kind, pool = ('unit', upool) if rng.random() < 0.6 else ('variable', vpool)
+        names = [n for n in pool if rng.random() < 0.6]
+        rng.shuffle(names)
+        alines.append('(%s %s)' % (kind, ' '.join('(a %s %s)' % (Hh(n), Hh(rng.choice(pool[n]))) for n in names)))
+    aimpl = run_lines(hxa, [], alines)[1]
+    amodel = run_lines(drv, ['attrs'], alines)[1] if os.path.exists(drv) else [''] * len(alines)
+    acorr = [(l, i, m) for l, i, m in zip(alines, aimpl, amodel) if i != m]
+    if len(aimpl) != len(alines):
+        acorr.append((alines[len(aimpl)] if len(aimpl) < len(alines) else '', 'the harness stopped', ''))
+    # ... and the property on the implementation alone: what is printed, parsed again, is stored as before
+    again, first = [], []
+    for l, i in zip(alines, aimpl):
+        m2 = re.match(r'\((stored [^)]*)\) \(printed(.*)\)$', i)
+        if m2:
+            again.append('(%s%s)' % (l[1:].split(' ', 1)[0].rstrip(')'), m2.group(2))); first.append((l, m2.group(1)))
+    aimpl2 = run_lines(hxa, [], again)[1]
+    aoracle = []
+    for (l, st), l2, i2 in zip(first, again, aimpl2):
+        if not i2.startswith('(' + st + ')'):
+            aoracle.append(('the attributes %s are stored as (%s); printed and parsed again they are stored as %s' % (l, st, i2.split(') (printed')[0]), l))
     stats = {'documents': 0, 'valid': 0, 'roundtrip_ok': 0, 'with_specials': 0, 'known_fifteen_digits': 0, 'known_unescaped': 0}
     wd = tempfile.mkdtemp(prefix='c02-')
     try:
@@ -115,9 +145,16 @@ def run(chk, replay=None):
     chk.cov.update(evaluations=len(lines) + stats['documents'], distinct_nontrivial=stats['documents'],
                    rule='URL strings over an alphabet of XML-special, entity-like and non-ASCII pieces (escape function and print + parse of a model importing from that URL); '
                         'generated CellML 2.0 documents over the whole feature space (unit children with prefixes / exponents / multipliers, imports, nested encapsulation, all variable attributes, several mapped pairs per connection with ids, resets, MathML with whitespace; a quarter with special characters in ids / initial values / URLs): parse, print, parse, print',
-                   samples=[lines[3], impl[3], model[3]], traces_validated_against_impl=len(lines) - len(corr), exhaustive=False, outcome_histogram=stats)
+                   samples=[lines[3], impl[3], model[3]], traces_validated_against_impl=len(lines) - len(corr) + len(alines) - len(acorr), exhaustive=False, outcome_histogram=stats)
+    stats['attribute_sets'] = len(alines); stats['attribute_sets_reparsed'] = len(again)
     for what, text, s in oracle[:3]:
         chk.violation('print + parse does not preserve the model: ' + what, {'kind': 'oracle', 'engine': 'roundtrip', 'cellml': text, 'url': s, 'why': what}, True)
+    for what, l in aoracle[:3]:
+        chk.violation('print + parse does not preserve the model: ' + what, {'kind': 'oracle', 'engine': 'attrs', 'line': l, 'why': what}, True)
+    if not oracle and not aoracle:
+        for l, i, m in acorr[:3]:
+            chk.violation('attribute model and parser / printer disagree (correspondence `attrs` broken): %s: implementation %s, model %s' % (l, i, m),
+                          {'kind': 'correspondence', 'engine': 'attrs', 'line': l, 'why': 'implementation %s, model %s' % (i, m), 'theorem': 'Cellml.Props.C02.unit_roundtrip / variable_roundtrip'}, False)
     if not oracle:
         for what, s in corr[:3]:
             chk.violation('escaping model and escapeAttributeValue disagree (correspondence `xml` broken): ' + what,
